@@ -190,6 +190,7 @@ def check_once(S, Counting, pname, personality, how, rp, service, attempt):
 # ---- route path texts ---------------------------------------------------------------------------------
 PORTS = [1, 2, 14, 15, 16, 255, 65535]
 LINKS = [0, 1, 255, "1.2.3.4", "10.0.0.10"]
+IPV6_LINKS = [("::1", "::1"), ("0:0::1", "::1"), ("2001:DB8::1", "2001:db8::1"), ("2001:db8:0:0:0:0:0:1", "2001:db8::1")]
 
 
 def texts(tier):
@@ -201,6 +202,16 @@ def texts(tier):
         yield json.dumps({"port": p, "link": l}), want
         yield json.dumps(["%s/%s" % (p, l)]), want
         yield " %s / %s " % (p, l), want
+    # a link address may be spelled in any form the address has; it denotes the address (IPv6: its canonical text)
+    for p in (1, 2, 16):
+        for spelled, denotes in IPV6_LINKS:
+            want = [PL(p, denotes)]
+            yield "%s/%s" % (p, spelled), want
+            yield json.dumps([{"port": p, "link": spelled}]), want
+            yield json.dumps({"port": p, "link": spelled}), want
+            yield json.dumps(["%s/%s" % (p, spelled)]), want
+            yield json.dumps([{"port": p, "link": spelled}, {"port": 1, "link": 0}]), want + [PL(1, 0)]
+            yield "1/0/%s/%s" % (p, spelled), [PL(1, 0)] + want
     for (p, l), (q, m) in itertools.product(segs, repeat=2):
         want = [PL(p, l), PL(q, m)]
         yield "%s/%s/%s/%s" % (p, l, q, m), want
@@ -239,7 +250,8 @@ def check_text(text, want):
             if norm != want:
                 return [("route-list-wrong-segments", "parse_route_path(%r) (attempt %d on the same list object) -> %r, expected %r"
                          % (keep, attempt, got, want))]
-            if arg != keep:
+            # (an element rewritten in place to its canonical form still denotes the same segment: that is not "modified")
+            if len(arg) != len(keep) or any(a != k and a != w for a, k, w in zip(arg, keep, want)):
                 return [("route-list-argument-modified", "parse_route_path modified its argument: %r -> %r" % (keep, arg))]
     return []
 
